@@ -19,7 +19,7 @@ from vlib.hk import CFG, begin, ok, fail, skip, B, run, cat, concrete
 envkit.install()
 LOG = []
 BEH = {}        # (plugin index, hook) -> behaviour: 0 pass, 1 modify, 2 drop (None), 3 reject
-PASS, MODIFY, DROP, REJECT = 0, 1, 2, 3
+PASS, MODIFY, DROP, REJECT, REPLACE = 0, 1, 2, 3, 4      # REPLACE: like MODIFY but returns a NEW request object
 
 
 def _mk(idx):
@@ -49,6 +49,11 @@ def _mk(idx):
                 return None
             if b == MODIFY:
                 request.add_header(b'X-Mark-hcr%d' % self.I, b'1')
+            if b == REPLACE:
+                from proxy.http.parser import HttpParser
+                fresh = HttpParser.request(request.build(for_proxy=request.host is not None))
+                fresh.add_header(b'X-Mark-hcr%d' % self.I, b'1')
+                return fresh
             return request
 
         def handle_upstream_chunk(self, chunk):
@@ -205,6 +210,74 @@ def chain(a0: int, a1: int, a2: int, b0: int, b1: int, b2: int) -> bool:
     return ok()
 
 
+def chain2(a0: int, a1: int) -> bool:
+    """
+    pre: 0 <= a0 <= 4 and 0 <= a1 <= 4
+    post: _
+    """
+    begin()
+    # handle_client_request chain on a FOLLOW-UP request of a kept-alive connection
+    A = [_lad(a0, 5), _lad(a1, 5)]
+    BEH.clear()
+    del LOG[:]
+    with concrete():
+        env = envkit.new_env()
+        h, cs = envkit.make_handler(FL[(2, False)], env)
+        cs.inq.append(b'GET http://o.example/first HTTP/1.1\r\nHost: o.example\r\n\r\n')
+        if run(h.handle_events([cs.fd], [])):
+            return fail('teardown on the first request')
+    sent1 = len(envkit.pending(h.plugin.upstream))
+    del LOG[:]
+    for i in range(2):
+        BEH[(i, 'hcr')] = A[i]
+    cs.inq.append(b'GET http://o.example/second HTTP/1.1\r\nHost: o.example\r\n\r\n')
+    try:
+        td = run(h.handle_events([cs.fd], []))
+    except Exception as e:
+        return fail('exception left handle_events on the follow-up request', exc=repr(e))
+    closing = bool(td) or h.must_flush_before_shutdown
+    exp = []
+    marks = []
+    result = 'forward'
+    for i in range(2):
+        exp.append(('hcr', i, tuple(sorted(marks))))
+        b = A[i]
+        if b == REJECT:
+            result = 'reject'
+            break
+        if b == DROP:
+            result = 'dropped'
+            break
+        if b in (MODIFY, REPLACE):
+            marks.append('x-mark-hcr%d' % i)
+    got = [x for x in LOG if x[0] == 'hcr']
+    if got != exp:
+        return fail('follow-up request: hook order / data flow differs from the documented chaining', got=repr(got), want=repr(exp))
+    sent = envkit.pending(h.plugin.upstream)[sent1:]
+    if result == 'reject':
+        if not closing:
+            return fail('follow-up request rejected by a plugin but the connection is kept')
+        if sent != b'':
+            return fail('rejected follow-up request was forwarded')
+        return ok()
+    if closing:
+        return fail('connection closed although no plugin rejected the follow-up request')
+    if result == 'dropped':
+        if sent != b'':
+            return fail('dropped follow-up request was forwarded', sent=repr(sent[:60]))
+        return ok()
+    try:
+        m = refhttp.read_message(sent, False)
+    except refhttp.Malformed as e:
+        return fail('forwarded follow-up request malformed', why=str(e), sent=repr(sent[:80]))
+    if m['start'][1] != b'/second':
+        return fail('follow-up request not forwarded', start=repr(m['start']))
+    fm = sorted(k.decode() for k, nme, v in m['headers'] if k.startswith(b'x-mark'))
+    if fm != sorted(marks):
+        return fail('forwarded follow-up request does not carry exactly the modifications of the chain', got=repr(fm), want=repr(sorted(marks)))
+    return ok()
+
+
 def lifecycle(c0: int, c1: int, l0: int, l1: int) -> bool:
     """
     pre: 0 <= c0 <= 2 and 0 <= c1 <= 2 and 0 <= l0 <= 2 and 0 <= l1 <= 2
@@ -319,6 +392,7 @@ def obligations(tier):
                                 'group': 'chain'})
         else:
             obs.append({'name': 'chain.n%d' % n, 'fn': 'chain', 'cfg': {'n': n}, 'timeout': T, 'group': 'chain'})
+    obs.append({'name': 'chain2.followup', 'fn': 'chain2', 'cfg': {}, 'timeout': T, 'group': 'chain2'})
     obs.append({'name': 'chain.reversed', 'fn': 'chain', 'cfg': {'n': 2, 'reversed': True}, 'timeout': T, 'group': 'chain'})
     obs.append({'name': 'chain.auth_good', 'fn': 'chain', 'cfg': {'n': 2, 'auth': 'good'}, 'timeout': T, 'group': 'chain'})
     obs.append({'name': 'chain.auth_bad', 'fn': 'chain', 'cfg': {'n': 2, 'auth': 'bad'}, 'timeout': T, 'group': 'chain'})
